@@ -51,6 +51,17 @@ def ngParseDump (w : String) : Option (List (List PA)) :=
 def ngShowViolations (vs : List String) : String :=
   if vs.isEmpty then "~ ok" else "~ violated " ++ joinWith "," vs
 
+/-- clauses that belong to the closure's contract with the nogood SEARCH (C05: unit flip, progress,
+flag) rather than to property C18 as stated; they are reported on the correspondence channel -/
+def ngContractClauses : List String :=
+  ["missed-unit-flip", "update-without-progress", "result-matches-a-nogood", "wrong-update-flag"]
+
+/-- two answer lines: `~` = the clauses of C18, `=` = the search contract -/
+def ngVerdictLines (vs : List String) : List String :=
+  let prop := vs.filter (fun v => !ngContractClauses.contains v)
+  let extra := vs.filter (fun v => ngContractClauses.contains v)
+  [ngShowViolations prop, if extra.isEmpty then "= contract ok" else "= contract violated " ++ joinWith "," extra]
+
 /-- the vector of width `n`, if the word is one -/
 def NgStoreSt.vec (s : NgStoreSt) (w : String) : Option PA :=
   (ngParseVec w).bind (fun v => if v.length == s.n then some v else none)
@@ -107,7 +118,7 @@ def ngStep (s : NgStoreSt) (l : String) (ws : List String) : Option (List String
           (s.vec r).map (fun r => (some r, NgSpec.clause (flag == boolBit (r != a)) "wrong-update-flag"))
         | _ => none
       match verdict with
-      | some (x, extra) => some ([l, ngShowViolations (NgSpec.conclViolations s.n s.added a x ++ extra)], s)
+      | some (x, extra) => some (l :: ngVerdictLines (NgSpec.conclViolations s.n s.added a x ++ extra), s)
       | none => some ([l, "~ violated " ++ (if ans == ["panic"] then "panic" else "unreadable-answer")], s)
     | none => some ([l, "~ bad-request"], s)
   | "nogoodcheck" :: "closure" :: v :: ans =>
@@ -120,7 +131,7 @@ def ngStep (s : NgStoreSt) (l : String) (ws : List String) : Option (List String
         | ["update", r] => (s.vec r).map NgSpec.ClosureAns.update
         | _ => none
       match verdict with
-      | some x => some ([l, ngShowViolations (NgSpec.closureViolations s.n s.added a x)], s)
+      | some x => some (l :: ngVerdictLines (NgSpec.closureViolations s.n s.added a x), s)
       | none => some ([l, "~ violated " ++ (if ans == ["panic"] then "panic" else "unreadable-answer")], s)
     | none => some ([l, "~ bad-request"], s)
   | _ => none
